@@ -7,6 +7,9 @@ unifier `Inf.unify` and `Prog.infer` (what the driver runs).
 -/
 import SimplicityModel.Prog.Infer
 import SimplicityModel.InferTerm
+import SimplicityModel.Prog.InferUBProps
+import SimplicityModel.Prog.InferUBBisim
+import SimplicityModel.Prog.InferUBTerm
 
 namespace Props.C04
 open Prog Inf
@@ -89,5 +92,291 @@ example : ∃ es S, constraints (fun _ => none) #[.unit, .injl 0] false = some e
 example : ∃ es, constraints (fun _ => none) #[.iden, .pair 0 0, .comp 1 1] false = some es ∧
     unify 50 es [] = .occurs :=
   ⟨_, rfl, rfl⟩
+
+/-! ## The algorithm the code runs
+
+`Prog.inferUB` (`Prog/InferUB.lean`, `UnionBound.lean`) is a transcription of what the library does:
+`Context` with its slab of bounds, `UbElement` union–find with rank and path halving, `bind`/`unify`
+with the case analysis of `context.rs` (eager completion, deferred occurs check), `Type::finalize`
+(occurs check, free variables to unit, write-back) and `Arrow::…` as sequences of those calls, run
+over a plan in a given construction order.  `Prog.ubEqns` are the equations the calls of a run stand
+for (`unify a b ↦ a = b`, `bind_product e a b ↦ e = a × b`, `Type::sum a b ↦ new = a + b`, …) over
+the element indices as type variables; they are computed without running the algorithm. -/
+
+open UB in
+/-- **(d) Path halving and union by rank do not change what a context represents.**  `root_element`
+(which rewires parent pointers), bumping a rank and the choice of which root `unify` keeps leave the
+set of assignments of the context unchanged, resp. exactly add the equation `x = y`. -/
+theorem unionfind_preserves_meaning (F f : Nat) (c : Ctx) (x y : Nat) :
+    (∀ c' r, rootElement F c x = .ok (c', r) →
+      (∀ ρ, SolSt ρ c' ↔ SolSt ρ c) ∧ (∀ ρ, ParentSol ρ c' ↔ ParentSol ρ c) ∧ c'.slab = c.slab) ∧
+    (∀ ρ, SolSt ρ (bumpRank c x) ↔ SolSt ρ c) ∧
+    (WF c → ∀ c', unify F f c x y = .ok c' → ∀ ρ, SolSt ρ c' ↔ (SolSt ρ c ∧ ρ x = ρ y)) := by
+  refine ⟨fun c' r h => ?_, fun ρ => (bumpRank_compress c x).sol ρ, fun w c' h => ?_⟩
+  · obtain ⟨k, _, _⟩ := rootElement_spec _ _ _ _ _ h
+    exact ⟨k.sol, k.par, k.slab⟩
+  · have g := unify_good F f w x y
+    rw [h] at g
+    exact g.2.2.1
+
+/-- **(a) An accepted run returns the least solution.**  If the transcribed algorithm finishes
+without error on a plan (any construction order, any fuel), and its coverage check holds, there is an
+assignment `ρ₀` of the run's equations that is *below every other solution* in the prune order, and
+every constructed node gets exactly `ρ₀` of its source and target. -/
+theorem inferUB_is_least_solution (F : Nat) (jt : JetTypes) (p : Plan) (order : List Nat)
+    (program : Bool) {arrows : Array (Option (BM4.Ty × BM4.Ty))} {E : List Eqn}
+    {ea : Array (Option ElemArrow)}
+    (h : inferUBWith F jt p order program = .ok arrows true)
+    (hE : ubEqns jt p order program = some (E, ea)) :
+    ∃ ρ₀ : Nat → Inf.Ty, Sol ρ₀ E ∧ (∀ ρ, Sol ρ E → ∀ x, Le (ρ₀ x) (ρ x)) ∧ arrows.size = p.size ∧
+      ∀ i s t, i < p.size → (ea[i]?).join = some (s, t) →
+        arrows[i]? = some (some (tyOfInf (ρ₀ s), tyOfInf (ρ₀ t))) :=
+  inferUB_least F jt p order program h hE
+
+/-- … which is the solution the reference unifier computes: whenever `Inf.unify` answers `ok S` on
+the same equations, every constructed node's arrow is `closeUnit S` of its source and target (so the
+existing theorems about the reference unifier — sound, principal, order independent — apply to the
+algorithm's output); and the reference unifier cannot reject what the algorithm accepts. -/
+theorem inferUB_matches_reference_unifier (F f : Nat) (jt : JetTypes) (p : Plan) (order : List Nat)
+    (program : Bool) {arrows : Array (Option (BM4.Ty × BM4.Ty))} {E : List Eqn}
+    {ea : Array (Option ElemArrow)}
+    (h : inferUBWith F jt p order program = .ok arrows true)
+    (hE : ubEqns jt p order program = some (E, ea)) :
+    (unify f E [] ≠ .clash ∧ unify f E [] ≠ .occurs) ∧
+    ∀ S, unify f E [] = .ok S → ∀ i s t, i < p.size → (ea[i]?).join = some (s, t) →
+      arrows[i]? = some (some (tyOfInf (closeUnit S s), tyOfInf (closeUnit S t))) := by
+  obtain ⟨ρ₀, h1, h2, _, h4⟩ := inferUB_least F jt p order program h hE
+  have hden : Den ρ₀ E [] := ⟨h1, by simp [SolS]⟩
+  have hg := unify_good f E []
+  refine ⟨⟨fun hc => ?_, fun hc => ?_⟩, fun S hS i s t hi hst => ?_⟩
+  · rw [hc] at hg; exact hg ρ₀ hden
+  · rw [hc] at hg; exact hg ρ₀ hden
+  · have hl := unify_least f E S hS
+    have heq : ∀ x, closeUnit S x = ρ₀ x := fun x => Le.antisymm (hl.2 ρ₀ h1 x) (h2 _ hl.1 x)
+    rw [heq s, heq t]
+    exact h4 i s t hi hst
+
+/-- **(b) Errors only for unsolvable constraints.**  If the transcribed algorithm reports
+`Error::Bind` (two different constructors must be equal) or `Error::OccursCheck` (a cycle), the
+equations of the run have no finite solution at all — so the reference unifier does not accept them
+either. -/
+theorem inferUB_rejects_only_unsolvable (F f : Nat) (jt : JetTypes) (p : Plan) (order : List Nat)
+    (program : Bool) {E : List Eqn} {ea : Array (Option ElemArrow)}
+    (h : inferUBWith F jt p order program = .typeError ∨ inferUBWith F jt p order program = .occurs)
+    (hE : ubEqns jt p order program = some (E, ea)) :
+    (∀ ρ, ¬ Sol ρ E) ∧ ∀ S, unify f E [] ≠ .ok S := by
+  have hno := Prog.inferUB_rejects_only_unsolvable F jt p order program h hE
+  exact ⟨hno, fun S hS => hno _ (unify_least f E S hS).1⟩
+
+/-- **The two transcriptions of `arrow.rs` agree.**  For a construction order in which every node
+occurs exactly once, the equations of the operations the node constructors perform on the context
+(`ubEqns`) and the constraint set of the specification (`Prog.constraints`, what the reference
+unifier is run on) have the same solutions on the arrows of the nodes. -/
+theorem ub_equations_are_the_constraints (jt : JetTypes) (p : Plan) (order : List Nat) (program : Bool)
+    {E : List Eqn} {ea : Array (Option ElemArrow)} {es : List Eqn}
+    (hE : ubEqns jt p order program = some (E, ea)) (hc : constraints jt p program = some es)
+    (hnd : order.Nodup) (hall : ∀ i, i < p.size → i ∈ order) :
+    (∀ ρ, Sol ρ E → ∃ ρ', Sol ρ' es ∧
+      ∀ (i : Nat) s t, (ea[i]?).join = some (s, t) → ρ' (2 * i) = ρ s ∧ ρ' (2 * i + 1) = ρ t) ∧
+    (∀ ρ', Sol ρ' es → ∃ ρ, Sol ρ E ∧
+      ∀ (i : Nat) s t, (ea[i]?).join = some (s, t) → ρ s = ρ' (2 * i) ∧ ρ t = ρ' (2 * i + 1)) :=
+  ub_ref_bisim jt p order program hE hc hnd hall
+
+/-- **Refinement, accepted runs.**  Whenever the transcribed algorithm (any fuel, any construction
+order that builds every node once) accepts a plan and the specification-level `Prog.infer`
+(reference unifier on `Prog.constraints`) gives a definite answer, that answer is `ok` with exactly
+the same arrow at every node.  Hence `infer_sound_and_principal`, `order_independent_types`, … hold
+for what the algorithm returns. -/
+theorem inferUB_eq_infer (F : Nat) (jt : JetTypes) (p : Plan) (order : List Nat) (program : Bool)
+    {arrows : Array (Option (BM4.Ty × BM4.Ty))} {E : List Eqn} {ea : Array (Option ElemArrow)}
+    (hnd : order.Nodup) (hall : ∀ i, i < p.size → i ∈ order)
+    (hE : ubEqns jt p order program = some (E, ea))
+    (h : inferUBWith F jt p order program = .ok arrows true) :
+    (infer jt p program ≠ .typeError ∧ infer jt p program ≠ .occurs) ∧
+    ∀ arrows', infer jt p program = .ok arrows' → arrows = arrows'.map some := by
+  obtain ⟨ρ₀, hsol, hleast, hsize, hval⟩ := inferUB_least F jt p order program h hE
+  -- every node has an element arrow
+  have hea : ∀ i, i < p.size → ∃ s t, (ea[i]?).join = some (s, t) := by
+    intro i hi
+    unfold ubEqns at hE
+    split at hE
+    · cases hE
+    · next E0 arrows0 k0 hcon =>
+      split at hE
+      · cases hE
+      · simp only [Option.some.injEq, Prod.mk.injEq] at hE
+        obtain ⟨_, rfl⟩ := hE
+        have := (constructEqns_arrows jt p order _ 0 E0 arrows0 k0 hcon (by simp)).2 i (hall i hi)
+        cases hj : (arrows0[i]?).join with
+        | none => exact absurd hj this
+        | some a => exact ⟨a.1, a.2, rfl⟩
+  refine ⟨⟨fun hc => ?_, fun hc => ?_⟩, fun arrows' h' => ?_⟩
+  · cases hcs : constraints jt p program with
+    | none => simp [infer, hcs] at hc
+    | some es =>
+      obtain ⟨ρ', hρ', _⟩ := (ub_ref_bisim jt p order program hE hcs hnd hall).1 ρ₀ hsol
+      exact infer_rejects_only_unsolvable jt p program es hcs (.inl hc) ρ' hρ'
+  · cases hcs : constraints jt p program with
+    | none => simp [infer, hcs] at hc
+    | some es =>
+      obtain ⟨ρ', hρ', _⟩ := (ub_ref_bisim jt p order program hE hcs hnd hall).1 ρ₀ hsol
+      exact infer_rejects_only_unsolvable jt p program es hcs (.inr hc) ρ' hρ'
+  · cases hcs : constraints jt p program with
+    | none => simp [infer, hcs] at h'
+    | some es =>
+      obtain ⟨ρL, hLsol, hLleast, hLarr⟩ := infer_sound_and_principal jt p program es arrows' hcs h'
+      subst hLarr
+      obtain ⟨hb1, hb2⟩ := ub_ref_bisim jt p order program hE hcs hnd hall
+      obtain ⟨ρ', hρ', hag'⟩ := hb1 ρ₀ hsol
+      obtain ⟨ρ, hρ, hag⟩ := hb2 ρL hLsol
+      apply Array.ext
+      · rw [hsize]; simp [arrowsOf]
+      · intro i hi1 hi2
+        have hi : i < p.size := hsize ▸ hi1
+        obtain ⟨s, t, hst⟩ := hea i hi
+        have e1 : ρ₀ s = ρL (2 * i) :=
+          Le.antisymm ((hag i s t hst).1 ▸ hleast ρ hρ s) ((hag' i s t hst).1 ▸ hLleast ρ' hρ' (2 * i))
+        have e2 : ρ₀ t = ρL (2 * i + 1) :=
+          Le.antisymm ((hag i s t hst).2 ▸ hleast ρ hρ t) ((hag' i s t hst).2 ▸ hLleast ρ' hρ' (2 * i + 1))
+        have hv := hval i s t hi hst
+        rw [Array.getElem?_eq_getElem hi1] at hv
+        simp only [Option.some.injEq] at hv
+        rw [hv, e1, e2]
+        simp [arrowsOf]
+
+/-- **Refinement, rejected runs.**  Whenever the transcribed algorithm reports `Error::Bind` or
+`Error::OccursCheck`, the constraint set of the specification has no finite solution, so
+`Prog.infer` does not accept the plan either. -/
+theorem inferUB_error_infer_rejects (F : Nat) (jt : JetTypes) (p : Plan) (order : List Nat)
+    (program : Bool) {E : List Eqn} {ea : Array (Option ElemArrow)} {es : List Eqn}
+    (hnd : order.Nodup) (hall : ∀ i, i < p.size → i ∈ order)
+    (hE : ubEqns jt p order program = some (E, ea)) (hc : constraints jt p program = some es)
+    (h : inferUBWith F jt p order program = .typeError ∨ inferUBWith F jt p order program = .occurs) :
+    (∀ ρ', ¬ Sol ρ' es) ∧ ∀ arrows', infer jt p program ≠ .ok arrows' := by
+  have hno := Prog.inferUB_rejects_only_unsolvable F jt p order program h hE
+  have hno' : ∀ ρ', ¬ Sol ρ' es := fun ρ' hρ' => by
+    obtain ⟨ρ, hρ, _⟩ := (ub_ref_bisim jt p order program hE hc hnd hall).2 ρ' hρ'
+    exact hno ρ hρ
+  refine ⟨hno', fun arrows' h' => ?_⟩
+  obtain ⟨ρL, hLsol, _, _⟩ := infer_sound_and_principal jt p program es arrows' hc h'
+  exact hno' ρL hLsol
+
+/-- **Order independence of the algorithm itself.**  Two runs of the transcribed algorithm on the
+same plan in two construction orders (each building every node once) that both finish return the
+same arrows — via the specification: both equal what `Prog.infer` computes whenever that is
+definite; stated directly: if both accept, every node gets the same arrow. -/
+theorem inferUB_order_independent (F F' : Nat) (jt : JetTypes) (p : Plan) (order order' : List Nat)
+    (program : Bool) {arrows arrows' : Array (Option (BM4.Ty × BM4.Ty))}
+    {E E' : List Eqn} {ea ea' : Array (Option ElemArrow)} {es : List Eqn}
+    (hnd : order.Nodup) (hall : ∀ i, i < p.size → i ∈ order)
+    (hnd' : order'.Nodup) (hall' : ∀ i, i < p.size → i ∈ order')
+    (hE : ubEqns jt p order program = some (E, ea)) (hE' : ubEqns jt p order' program = some (E', ea'))
+    (hc : constraints jt p program = some es)
+    (h : inferUBWith F jt p order program = .ok arrows true)
+    (h' : inferUBWith F' jt p order' program = .ok arrows' true) :
+    arrows = arrows' ∧
+    (inferUBWith F' jt p order' program ≠ .typeError ∧ inferUBWith F' jt p order' program ≠ .occurs) := by
+  have hterm := Inf.unify_total es
+  -- the reference unifier terminates on `es` with some fuel; its answer decides both runs
+  obtain ⟨ρ₀, hsol, _, _, _⟩ := inferUB_least F jt p order program h hE
+  obtain ⟨ρ', hρ', _⟩ := (ub_ref_bisim jt p order program hE hc hnd hall).1 ρ₀ hsol
+  have hg := unify_good (enough es) es []
+  cases hu : unify (enough es) es [] with
+  | fuel => exact absurd hu hterm
+  | clash => rw [hu] at hg; exact absurd ⟨hρ', by simp [SolS]⟩ (hg ρ')
+  | occurs => rw [hu] at hg; exact absurd ⟨hρ', by simp [SolS]⟩ (hg ρ')
+  | ok S =>
+    refine ⟨?_, fun hc' => ?_, fun hc' => ?_⟩
+    · -- both equal the least solution of `es`
+      have key : ∀ (G : Nat) (ord : List Nat) (ar : Array (Option (BM4.Ty × BM4.Ty))) (EE : List Eqn)
+          (eaa : Array (Option ElemArrow)), ord.Nodup → (∀ i, i < p.size → i ∈ ord) →
+          ubEqns jt p ord program = some (EE, eaa) → inferUBWith G jt p ord program = .ok ar true →
+          ar = (arrowsOf (closeUnit S) p.size).map some := by
+        intro G ord ar EE eaa hn ha hEE hrun
+        obtain ⟨r₀, hs0, hl0, hsz0, hv0⟩ := inferUB_least G jt p ord program hrun hEE
+        have hL := unify_least (enough es) es S hu
+        obtain ⟨hb1, hb2⟩ := ub_ref_bisim jt p ord program hEE hc hn ha
+        obtain ⟨r', hr', hag'⟩ := hb1 r₀ hs0
+        obtain ⟨r, hr, hag⟩ := hb2 (closeUnit S) hL.1
+        apply Array.ext
+        · rw [hsz0]; simp [arrowsOf]
+        · intro i hi1 hi2
+          have hi : i < p.size := hsz0 ▸ hi1
+          have hea : ∃ s t, (eaa[i]?).join = some (s, t) := by
+            unfold ubEqns at hEE
+            split at hEE
+            · cases hEE
+            · next E0 arrows0 k0 hcon =>
+              split at hEE
+              · cases hEE
+              · simp only [Option.some.injEq, Prod.mk.injEq] at hEE
+                obtain ⟨_, rfl⟩ := hEE
+                have := (constructEqns_arrows jt p ord _ 0 E0 arrows0 k0 hcon (by simp)).2 i (ha i hi)
+                cases hj : (arrows0[i]?).join with
+                | none => exact absurd hj this
+                | some a => exact ⟨a.1, a.2, rfl⟩
+          obtain ⟨s, t, hst⟩ := hea
+          have e1 : r₀ s = closeUnit S (2 * i) :=
+            Le.antisymm ((hag i s t hst).1 ▸ hl0 r hr s) ((hag' i s t hst).1 ▸ hL.2 r' hr' (2 * i))
+          have e2 : r₀ t = closeUnit S (2 * i + 1) :=
+            Le.antisymm ((hag i s t hst).2 ▸ hl0 r hr t) ((hag' i s t hst).2 ▸ hL.2 r' hr' (2 * i + 1))
+          have hv := hv0 i s t hi hst
+          rw [Array.getElem?_eq_getElem hi1] at hv
+          simp only [Option.some.injEq] at hv
+          rw [hv, e1, e2]
+          simp [arrowsOf]
+      rw [key F order arrows E ea hnd hall hE h, key F' order' arrows' E' ea' hnd' hall' hE' h']
+    · rw [hc'] at h'; cases h'
+    · rw [hc'] at h'; cases h'
+
+open UB in
+/-- **(c) `unify`/`bind` terminate, explicit bound.**  Any sequence of context operations
+(`Type::free/complete/sum/product`, `unify`, `bind_product`) run from the empty context with fuel
+`2·(number of operations) + Hm + 3` — `Hm` = 1 + height of the tallest complete type an operation
+introduces — never runs out of fuel: ranks strictly increase along parent links and are bounded by
+the number of elements, so `root_element` finds a root; every nested `unify` that reaches the bind
+closure has removed a root; the recursion against a complete type descends into that type; eager
+completion makes complete types one taller but uses up an incomplete slab entry. -/
+theorem unify_bind_terminate (F Hm : Nat) (ops : List Op) (hops : ∀ op ∈ ops, OpH Hm op)
+    (hF : 2 * ops.length + Hm + 3 ≤ F) : runOps F {} ops ≠ .error .fuel :=
+  (runOps_total (F := F) ops (tinv_empty Hm)
+    (by simp only [show ({} : Ctx).elems.size = 0 from rfl, show ({} : Ctx).slab.size = 0 from rfl]; omega)
+    hops).1
+
+/-- **(c) the construction phase of `inferUB` terminates**: with fuel `20·|order| + planH + 9`
+(`planH` = 1 + height of the tallest jet/word type of the plan) every `Arrow::…` constructor and
+`set_arrow_to_program` finish. -/
+theorem inferUB_construction_terminates (F : Nat) (jt : JetTypes) (p : Plan) (order : List Nat)
+    (program : Bool) (hF : 20 * order.length + planH jt p + 9 ≤ F) :
+    buildAll F jt p order program ≠ .error .fuel :=
+  buildAll_total F jt p order program hF
+
+/-- **(c), what is missing.**  With that fuel the whole run can report `fuel` only from the
+finalisation phase: the construction succeeded and `finalizeAll` (the explicit-stack occurs check
+and the post-order loop of `Type::finalize`) ran out.  Not proved: that the occurs-check loop needs
+at most `4·|slab| + 1` iterations and that after a passed occurs check the post-order recursion is
+at most `|slab|` deep. -/
+theorem inferUB_terminates_partial (F : Nat) (jt : JetTypes) (p : Plan) (order : List Nat)
+    (program : Bool) (hF : 20 * order.length + planH jt p + 9 ≤ F)
+    (h : inferUBWith F jt p order program = .fuel) :
+    ∃ st, buildAll F jt p order program = .ok st ∧ finalizeAll F p st = .fuel := by
+  unfold inferUBWith at h
+  have hb := buildAll_total F jt p order program hF
+  cases hr : buildAll F jt p order program with
+  | error r => rw [hr] at h; dsimp only at h; subst h; exact absurd hr hb
+  | ok st => rw [hr] at h; exact ⟨st, rfl, h⟩
+
+/-! Non-vacuity: an accepted plan built out of index order, an occurs-check rejection, a clash. -/
+example : ∃ E ea, ubEqns (fun _ => none) #[.unit, .injl 0, .iden, .comp 1 2] [2, 0, 1, 3] false = some (E, ea) ∧
+    inferUBWith 50 (fun _ => none) #[.unit, .injl 0, .iden, .comp 1 2] [2, 0, 1, 3] false =
+      .ok #[some (.one, .one), some (.one, .sum .one .one),
+            some (.sum .one .one, .sum .one .one), some (.one, .sum .one .one)] true :=
+  ⟨_, _, rfl, rfl⟩
+example : ∃ E ea, ubEqns (fun _ => none) #[.iden, .pair 0 0, .comp 1 1] [0, 1, 2] false = some (E, ea) ∧
+    inferUBWith 50 (fun _ => none) #[.iden, .pair 0 0, .comp 1 1] [0, 1, 2] false = .occurs :=
+  ⟨_, _, rfl, rfl⟩
+example : ∃ E ea, ubEqns (fun _ => none) #[.unit, .injl 0, .take 0, .comp 1 2] [0, 2, 1, 3] false = some (E, ea) ∧
+    inferUBWith 50 (fun _ => none) #[.unit, .injl 0, .take 0, .comp 1 2] [0, 2, 1, 3] false = .typeError :=
+  ⟨_, _, rfl, rfl⟩
 
 end Props.C04
